@@ -13,10 +13,11 @@ RULE = ('cases = (number of workers 1-4) x (stream length 0-8) x predicate patte
         'scheduler-controlled fakes whose put/get are the scheduling points; schedules are enumerated exhaustively for '
         'the smallest configurations and drawn from VERIF_SEED otherwise; non-trivial = at least one row goes through a '
         'worker; distinct = (configuration, schedule)'
-        '; round 4: the row function mutates a nested value, removes a key and adds a key')
+        '; round 4: the row function mutates a nested value, removes a key and adds a key'
+        '; round 7: row functions that raise (OSError, EOFError, ValueError, ...) after they began to change the row')
 TRUSTED = ['Coq 8.16.1 kernel + vm_compute', 'harness/p18.py scheduler and fakes (thread-backed; a put/get is atomic and queues are FIFO, as the real ones are per producer)',
            'pickling across processes (a processed row is a copy) and process start-up/join are runtime behaviour outside the model']
-ASSUMES = ['row_func does not raise (a raising row_func is printed and the row delivered unprocessed: reported under C04)',
+ASSUMES = ['a row function that raises on a row is reported by the worker and the row goes on as that single application left it (round 7: such rows are generated; the model counts the application)',
            'queues are FIFO and their operations atomic']
 
 PMOD = sys.modules['dataflows.processors.parallelize']
@@ -172,6 +173,15 @@ class FThread:
         return not self.done
 
 
+FAILURES = {'OSError': OSError, 'EOFError': EOFError, 'ValueError': ValueError, 'TimeoutError': TimeoutError,
+            'FileNotFoundError': FileNotFoundError, 'KeyError': KeyError}
+
+
+def raise_if_asked(row):
+    if row.get('fail'):
+        raise FAILURES[row['fail']]('row %d' % row['id'])
+
+
 def aliased(rows, alias):
     """alias: every row holds the same list object in 'log' (what add_field(..., default=[]) produces)"""
     if alias:
@@ -232,6 +242,7 @@ def run_schedule(nworkers, rows, chooser, alias=False, close_race=False):
     def row_func(row):
         row['done'] += 1
         row['log'].append('x')      # a nested value: an extra application on a shallow copy of the row shows here
+        raise_if_asked(row)         # a row function that fails half-way: the row goes on as that one application left it
         row['twice'] = 2 * row.pop('tmp')     # a key removed and a key added: the delivered row is the function's result
 
     def consume():
@@ -244,8 +255,9 @@ def run_schedule(nworkers, rows, chooser, alias=False, close_race=False):
             err.append('%s: %s' % (type(e).__name__, e))
     main = FThread(sched, 'collector', consume, ())
     try:
-        main.start()
-        sched.loop(main)
+        with quiet():                # a failing row function is reported on standard output by the worker
+            main.start()
+            sched.loop(main)
     except Deadlock as e:
         err.append(str(e))
     finally:
@@ -267,11 +279,13 @@ def to_labels(trace):
     return out
 
 
-def gen_rows(n, pattern):
+def gen_rows(n, pattern, fails=None):
     rows = []
     for i in range(n):
         sel = {'none': False, 'all': True, 'some': i % 2 == 1, 'late': i >= n - 1, 'first': i == 0}[pattern]
         rows.append({'id': i, 'sel': sel, 'done': 0, 'log': [], 'tmp': i + 1})
+        if fails and i % 3 != 2:
+            rows[-1]['fail'] = fails[i % len(fails)]
     return rows
 
 
@@ -291,13 +305,19 @@ def gen_cases(rng, tier):
         cases.append({'kind': 'random', 'workers': n, 'rows': gen_rows(k, pat), 'seed': rng.randrange(10 ** 9)})
         if rng.chance(0.25):
             cases[-1]['alias'] = True      # all rows share one mutable value: each worker still gets its own copy
+        elif rng.chance(0.3):
+            # the row function raises on some rows after it has begun to change them (round 7)
+            cases[-1]['rows'] = gen_rows(k, pat, rng.sample(sorted(FAILURES), rng.randint(1, 3)))
     for n in (1, 2):
         cases.append({'kind': 'random', 'workers': n, 'rows': gen_rows(6, 'some'), 'seed': 7 + n, 'alias': True})
     # the exit status of a finished worker being collected by another thread when fork() tidies up (see FThread.close)
     for n in (1, 3):
         cases.append({'kind': 'random', 'workers': n, 'rows': gen_rows(5, 'some'), 'seed': 11 + n, 'close_race': True})
+    for n, kinds in ((1, ['OSError']), (2, ['EOFError', 'ValueError']), (3, ['TimeoutError', 'FileNotFoundError', 'KeyError'])):
+        cases.append({'kind': 'random', 'workers': n, 'rows': gen_rows(6, 'all', kinds), 'seed': 17 + n})
     if tier == 'thorough':
         cases.append({'kind': 'real_processes', 'workers': 3, 'rows': gen_rows(40, 'some')})
+        cases.append({'kind': 'real_processes', 'workers': 2, 'rows': gen_rows(30, 'all', ['OSError', 'ValueError', 'EOFError'])})
     return cases
 
 
@@ -313,7 +333,9 @@ def check_run(rows, delivered, err):
             return 'row %d (selected=%s) had the row function applied %d times (%d times on its nested value)' % (
                 r['id'], rows[r['id']]['sel'], r['done'], len(r['log']))
         exp = dict(rows[r['id']])
-        if want:
+        if want and exp.get('fail'):
+            exp.update(done=1, log=['x'])          # what one application did before it failed
+        elif want:
             exp.update(done=1, log=['x'], twice=2 * exp.pop('tmp'))
         if r != exp:
             return 'row %d (selected=%s) was delivered as %r, the row function\'s result is %r' % (r['id'], rows[r['id']]['sel'], r, exp)
@@ -329,6 +351,7 @@ def run_impl(case):
         def rf(row):
             row['done'] += 1
             row['log'].append('x')
+            raise_if_asked(row)
             row['twice'] = 2 * row.pop('tmp')
         with quiet():
             got = list(PMOD.fork(iter(aliased(copy.deepcopy(rows), case.get('alias'))), rf, n, lambda r: r['sel']))
